@@ -102,3 +102,22 @@ def run(ctx):
             if s["rv"]["k"] == "Agg" and (s["rv"].get("adt") or "").startswith(MOD):
                 built.add(s["rv"]["adt"].split("::")[-1])
     ctx.ob("R9-arms", "AutoSerdeVal|builds map and seq serializers", {"AutoSerdeMap", "AutoSerdeSeq"} <= built and any((t.get("fn") or "") == READDOC + "text" for _, t in vb.calls()), vb.rec["sp"], "built %s" % sorted(built))
+    # scalars are exported by ScalarValue's own Serialize impl, unconditionally: in the Scalar arm the serializer is handed to nothing else
+    scalar_region = None
+    for sb, sw in vb.switches():
+        src = vb.bool_operand_source(sw["op"])
+        if src and src["kind"] == "discr" and util.base_ty(src.get("ty") or "") == "automerge::value::Value":
+            for v, tb in sw["targets"]:
+                if (src["vars"] or {}).get(v) == "Scalar":
+                    scalar_region = [x for x in sorted(vb.live_blocks()) if vb.block_dominates(tb, x) and not vb.blocks[x].get("cleanup")]
+    if scalar_region is None:
+        raise facts.AnchorMissing("Value::Scalar arm of AutoSerdeVal::serialize")
+    takes_ser = [(bi, t) for bi, t in vb.calls() if bi in scalar_region and "S" in t.get("argtys", [])]
+    ctx.floor("calls consuming the serializer in the Scalar arm", len(takes_ser), 1)
+    for k, (bi, t) in util.ordinal_keys(takes_ser, lambda it: "AutoSerdeVal|Scalar arm|serializer handed to %s" % (it[1].get("fn") or "?").split("::")[-1]):
+        recv = util.strip_refs(t["argtys"][0]) if t.get("argtys") else ""
+        ok = t.get("fn") == "serde_core::ser::Serialize::serialize" and "automerge::value::ScalarValue" in recv
+        ctx.ob("R9-arms", k, ok, t["sp"], "ScalarValue's Serialize impl" if ok else
+               "a scalar is exported through %s on %s instead of ScalarValue's own Serialize impl (some values take a different form in the export)" % (t.get("fn"), recv))
+    n_sw = [sb for sb, sw in vb.switches() if sb in scalar_region]
+    ctx.ob("R9-arms", "AutoSerdeVal|Scalar arm|no branching on the scalar's value", not n_sw, vb.rec["sp"], "switches inside the Scalar arm: %d" % len(n_sw))
